@@ -7,3 +7,6 @@ package engine
 // representation facts every session built by NewSession/ReadSession satisfies: environment and
 // assets are set, the assets object is the engine's own with all asset groups initialised
 //@ pred SessRep(s *session) bool := s != nil && !isnil(s.env) && !isnil(s.assets) && s.assets.(*sessionAssets) != nil && s.assets.(*sessionAssets).locations != nil
+
+// engine built by the Builder: options present (limits are checked non-negative where a callee needs it)
+//@ pred EngRep(eng flows.Engine) bool := !isnil(eng) && eng.(*engine) != nil && eng.(*engine).options != nil
